@@ -129,8 +129,12 @@ func runAsync(out *TraceWriter, seed int64, run int, steps int) {
 		a.amnesia = perm[nb]
 		budget--
 	}
+	lateWatch := -1
 	if budget > 0 && rng.Intn(100) < 40 {
 		watchFlag = perm[nb+1]
+		if rng.Intn(2) == 0 { // starts as an ordinary validator, the flag is set at some moment of the run
+			lateWatch, watchFlag = watchFlag, -1
+		}
 	}
 	cfg := NodeCfg{Tpb: 1000, Inc: uint64([]int{1, 1, 7}[rng.Intn(3)]), AmevH: -1}
 	switch rng.Intn(4) {
@@ -165,13 +169,20 @@ func runAsync(out *TraceWriter, seed int64, run int, steps int) {
 		nodes = append(nodes, 100)
 	}
 	out.Write(RunStart{Call: "RunStart", Run: run, Seed: seed, Driver: "async", Nodes: nodes, Faulty: faulty,
-		Params: map[string]any{"n0": a.n0, "h0": a.h0, "byz": a.byz, "amnesia": a.amnesia, "watchFlag": watchFlag,
+		Params: map[string]any{"n0": a.n0, "h0": a.h0, "byz": a.byz, "amnesia": a.amnesia, "watchFlag": watchFlag, "lateWatch": lateWatch,
 			"amevH": cfg.AmevH, "maxTpb": cfg.MaxTpb, "inc": cfg.Inc, "varVals": a.varVals, "steps": steps}})
 	for _, n := range c.Nodes {
 		a.setupPool(n)
 		c.Emit(n.Start())
 	}
+	flipAt := -1
+	if lateWatch >= 0 {
+		flipAt = rng.Intn(steps)
+	}
 	for s := 0; s < steps; s++ {
+		if s == flipAt {
+			c.byID[lateWatch].SetWatch() // the watch-only flag is set while the node is running
+		}
 		a.step()
 	}
 }
